@@ -233,3 +233,38 @@ def pbc_holds(c, alpha):
 
 def opb_holds(constraints, alpha):
     return all(pbc_holds(c, alpha) for c in constraints)
+
+
+def graph_by_some_history(n, edges):
+    """the simple graph (n, edges) reached by one of several legal histories, chosen by the data itself:
+    0 direct; 1 grown from a smaller graph by one update_vertex_number call; 2 grown vertex by vertex;
+    3 with an extra edge added and removed again.  Families must see the same graph whichever way it was made."""
+    from cnfgen.graphs import Graph
+    edges = [tuple(e) for e in edges]
+    route = (n * 31 + len(edges) * 7 + sum(u + v for u, v in edges)) % 4
+    if route == 1 and n >= 2:
+        G = Graph(n // 2 if n > 3 else 0)
+        G.update_vertex_number(n)
+    elif route == 2 and n >= 1:
+        G = Graph(0)
+        for k in range(1, n + 1):
+            G.update_vertex_number(k)
+    else:
+        G = Graph(n)
+    extra = None
+    if route == 3 and n >= 2:
+        present = set(edges) | set((v, u) for u, v in edges)
+        for u in range(1, n + 1):
+            for v in range(u + 1, n + 1):
+                if (u, v) not in present:
+                    extra = (u, v)
+                    break
+            if extra:
+                break
+    if extra:
+        G.add_edge(*extra)
+    for u, v in edges:
+        G.add_edge(u, v)
+    if extra:
+        G.remove_edge(*extra)
+    return G
